@@ -193,6 +193,108 @@ theorem get32_code (d k L p off m maxbits : Nat) (rest : Bits) (hd : d < 9) (hL 
   have : ¬ (d ≥ 9) := by omega
   simp only [this, if_false]
 
+/-- the window over a code word `d` ones, a zero, payload `p` in `L - d - 1` bits: prefix length and the `k` bits behind the zero -/
+theorem code_window (d k L p off : Nat) (rest : Bits) (hd : d < 9) (hL : L + off ≤ 32) (hdL : d + 1 ≤ L)
+    (hp : p < 2 ^ (L - d - 1)) (hk : d + k ≤ L) (hL31 : L ≤ 31) :
+    ∃ t, t < 2 ^ (32 - L) ∧
+      leadOnes (window (bitsOf ((2 ^ d - 1) * 2 ^ (L - d) + p) L ++ rest) off) = d ∧
+      (window (bitsOf ((2 ^ d - 1) * 2 ^ (L - d) + p) L ++ rest) off * 2 ^ (d + 1) % 4294967296) / 2 ^ (32 - k) =
+        (p * 2 ^ (32 - L) + t) / 2 ^ (31 - d - k) := by
+  have hV : (2 ^ d - 1) * 2 ^ (L - d) + p < 2 ^ L := by
+    have : 2 ^ L = 2 ^ d * 2 ^ (L - d) := two_pow_split L d (by omega)
+    have h2 : 2 ^ (L - d) = 2 * 2 ^ (L - d - 1) := by rw [← Nat.pow_succ']; congr 1; omega
+    have h3 : (2 ^ d - 1) * 2 ^ (L - d) + 2 ^ (L - d) = 2 ^ d * 2 ^ (L - d) := by
+      have : 1 ≤ 2 ^ d := Nat.pow_pos (by decide)
+      rw [← Nat.succ_mul]; congr 1; omega
+    omega
+  obtain ⟨t, ht, hw⟩ := window_code ((2 ^ d - 1) * 2 ^ (L - d) + p) L off rest hL
+  refine ⟨t, ht, ?_⟩
+  rw [Nat.mod_eq_of_lt hV] at hw
+  have hP : p * 2 ^ (32 - L) + t < 2 ^ (31 - d) := by
+    calc p * 2 ^ (32 - L) + t < (p + 1) * 2 ^ (32 - L) := by rw [Nat.succ_mul]; omega
+      _ ≤ 2 ^ (L - d - 1) * 2 ^ (32 - L) := Nat.mul_le_mul_right _ hp
+      _ = 2 ^ (31 - d) := by rw [← Nat.pow_add]; congr 1; omega
+  have hw2 : window (bitsOf ((2 ^ d - 1) * 2 ^ (L - d) + p) L ++ rest) off = 4294967296 - 2 ^ (32 - d) + (p * 2 ^ (32 - L) + t) := by
+    rw [hw, Nat.add_mul, Nat.mul_assoc, ← Nat.pow_add, show L - d + (32 - L) = 32 - d by omega, Nat.add_assoc]
+    congr 1
+    have : 2 ^ d * 2 ^ (32 - d) = 4294967296 := by rw [← Nat.pow_add, show d + (32 - d) = 32 by omega]
+    rw [Nat.sub_mul, this]; simp
+  rw [hw2]
+  exact prefix_window d k (p * 2 ^ (32 - L) + t) (by omega) (by omega) hP
+
+/-- the escape code of a zero run: 9 ones, then the run length in 16 bits -/
+theorem escRun (n off m k : Nat) (rest : Bits) (hoff : off < 8) (hn : n < 65536) :
+    dynGet (bitsOf (511 * 65536 + n) 25 ++ rest) off m k = (n, 25) := by
+  unfold dynGet
+  obtain ⟨t, ht, hw⟩ := window_code (511 * 65536 + n) 25 off rest (by omega)
+  generalize window (bitsOf (511 * 65536 + n) 25 ++ rest) off = W at hw ⊢
+  simp only [Nat.reducePow, Nat.reduceSub, Nat.reduceMul] at ht hw
+  rw [Nat.mod_eq_of_lt (by omega)] at hw
+  have hp : 9 ≤ leadOnes W := by rw [hw]; exact leadOnes_ge9 _ (by omega) (by omega)
+  simp only [hp, ge_iff_le, if_true, Nat.reducePow, Nat.reduceAdd, Prod.mk.injEq, and_true]
+  omega
+
+/-- `dyn_get (dyn_code (n)) = n` for a run length below 65536 and `m = 2^k - 1`, 1 ≤ k -/
+theorem dynGet_dynCode (k n off : Nat) (rest : Bits) (hk1 : 1 ≤ k) (hoff : off < 8) (hn : n < 65536) :
+    dynGet (dynCode (2 ^ k - 1) k n ++ rest) off (2 ^ k - 1) k = (n, (dynCode (2 ^ k - 1) k n).length) := by
+  have hm2 : 2 ≤ 2 ^ k := by
+    calc 2 = 2 ^ 1 := by norm_num
+      _ ≤ 2 ^ k := Nat.pow_le_pow_right (by decide) hk1
+  have hmpos : 0 < 2 ^ k - 1 := by omega
+  unfold dynCode
+  simp only []
+  by_cases hd : n / (2 ^ k - 1) ≥ 9
+  · simp only [hd, if_true, bitsOf_length]; exact escRun n off _ k rest hoff hn
+  · simp only [hd, if_false]
+    have hmdlt : n % (2 ^ k - 1) < 2 ^ k - 1 := Nat.mod_lt _ hmpos
+    have hn' : n = (n / (2 ^ k - 1)) * (2 ^ k - 1) + n % (2 ^ k - 1) := by
+      have := Nat.div_add_mod n (2 ^ k - 1); rw [Nat.mul_comm] at this; omega
+    have hd9 : n / (2 ^ k - 1) < 9 := by omega
+    generalize n / (2 ^ k - 1) = d at hd9 hn' ⊢
+    generalize n % (2 ^ k - 1) = md at hmdlt hn' ⊢
+    by_cases hz : md = 0
+    · simp only [hz, if_true]
+      by_cases hbig : d + k + 1 - 1 > 25
+      · simp only [hbig, if_true, bitsOf_length]; exact escRun n off _ k rest hoff hn
+      · simp only [hbig, if_false]
+        rw [show d + k + 1 - 1 = d + k by omega, show (2 ^ d - 1) * 2 ^ (d + k - d) + 0 + 1 - 1 = (2 ^ d - 1) * 2 ^ (d + k - d) + 0 by omega]
+        obtain ⟨t, ht, hpre, hv⟩ := code_window d k (d + k) 0 off rest hd9 (by omega) (by omega)
+          (by rw [show d + k - d - 1 = k - 1 by omega]; exact Nat.pow_pos (by decide)) (by omega) (by omega)
+        unfold dynGet
+        simp only [hpre, hv, Nat.zero_mul, Nat.zero_add]
+        have : ¬ (d ≥ 9) := by omega
+        simp only [this, if_false]
+        have hvl : t / 2 ^ (31 - d - k) < 2 := by
+          rw [Nat.div_lt_iff_lt_mul (Nat.pow_pos (by decide))]
+          calc t < 2 ^ (32 - (d + k)) := ht
+            _ = 2 * 2 ^ (31 - d - k) := by rw [← Nat.pow_succ']; congr 1; omega
+        simp only [hvl, if_true, bitsOf_length]
+        simp only [hz, Nat.add_zero] at hn'
+        rw [Prod.mk.injEq]; constructor <;> omega
+    · simp only [hz, if_false, Nat.sub_zero]
+      by_cases hbig : d + k + 1 > 25
+      · simp only [hbig, if_true, bitsOf_length]; exact escRun n off _ k rest hoff hn
+      · simp only [hbig, if_false]
+        obtain ⟨t, ht, hpre, hv⟩ := code_window d k (d + k + 1) (md + 1) off rest hd9 (by omega) (by omega)
+          (by rw [show d + k + 1 - d - 1 = k by omega]; omega) (by omega) (by omega)
+        rw [show (2 ^ d - 1) * 2 ^ (d + k + 1 - d) + md + 1 = (2 ^ d - 1) * 2 ^ (d + k + 1 - d) + (md + 1) by omega]
+        unfold dynGet
+        simp only [hpre, hv]
+        have : ¬ (d ≥ 9) := by omega
+        simp only [this, if_false]
+        have hvv : ((md + 1) * 2 ^ (32 - (d + k + 1)) + t) / 2 ^ (31 - d - k) = md + 1 := by
+          rw [show 32 - (d + k + 1) = 31 - d - k by omega] at ht ⊢
+          rw [Nat.mul_comm, Nat.mul_add_div (Nat.pow_pos (by decide)), Nat.div_eq_of_lt ht]
+        rw [hvv]
+        have : ¬ (md + 1 < 2) := by omega
+        simp only [this, if_false, bitsOf_length]
+        rw [Prod.mk.injEq]; constructor
+        · unfold u32 wrapU
+          have : d * (2 ^ k - 1) + (md + 1) < 65537 := by omega
+          simp only [Int.reducePow]
+          omega
+        · omega
+
 theorem esc32 (maxbits n off m k : Nat) (rest : Bits) (hoff : off < 8) (hn : n < 2 ^ maxbits) :
     dynGet32 ((bitsOf 511 9 ++ bitsOf n maxbits) ++ rest) off m k maxbits = (n, (bitsOf 511 9 ++ bitsOf n maxbits).length) := by
   unfold dynGet32
